@@ -141,15 +141,15 @@ def h_tdvp_args(V):
 #  (b) sweeps
 # ---------------------------------------------------------------------------------------------
 
-def setup_sweep(V, N):
+def setup_sweep(V, N, binding=False, factor=1.0):
     from yastn.tn.mps._env import EnvParent
     w = World(V, 1)
     install_world_norms(w)
     V.stub('yastn.tensor.linalg:svd', stub_svd(w))
-    V.stub('yastn.tensor.linalg:truncation_mask', stub_truncation_mask(w, lambda S: False))
+    V.stub('yastn.tensor.linalg:truncation_mask', stub_truncation_mask(w, lambda S: binding))
     V.stub('yastn.tensor._algebra:bitwise_not', stub_bitwise_not(w))
     V.stub('yastn.tensor._einsum:ncon', stub_ncon(w))
-    psi = make_psi(V, w, N, 1, factor=1.0)
+    psi = make_psi(V, w, N, 1, factor=factor)
     for k in range(N):
         psi.A[k].scale = 1.0
     GhostEnv = make_env_class()
@@ -254,7 +254,7 @@ def _is(du, val, V):
 
 
 import contracts.mps_values as MV
-from contracts.mps_values import h_pbc_values, h_mpo_mpo_values, h_complex_values, h_reverse_values, h_env3_refresh, h_overlap_values, h_mpo_values, h_env3_values, h_env_sum_project_values, h_measure_values, h_project_values
+from contracts.mps_values import h_pbc_values, h_mpo_mpo_values, h_complex_values, h_reverse_values, h_env3_refresh, h_overlap_values, h_mpo_values, h_env3_values, h_env_sum_project_values, h_measure_values, h_project_values, h_penalty_values
 FUNCTIONS = list(FUNCTIONS) + [f_ for f_ in MV.FUNCTIONS if f_ not in FUNCTIONS]
 import contracts.alg_bounded as AB
 from contracts.alg_bounded import h_tdvp_numeric
